@@ -56,6 +56,8 @@ CHUNK = 4
 
 
 def jobs(tier, seed):
+    from vlib.enginea.shapes import comp as comp_
+
     J = []
     for sh in shapes(tier):
         n = file_len(sh)
@@ -77,6 +79,10 @@ def jobs(tier, seed):
         J.append(dict(name="%s:append" % sh["name"], kind="append", shape=sh, positions=[1, 2], n=n, timeout=900, cost=50))
         J.append(dict(name="%s:otherkey" % sh["name"], kind="otherkey", shape=sh, positions=[0], n=n, timeout=900, cost=50))
         J.append(dict(name="%s:undamaged-twin" % sh["name"], kind="twin", shape=sh, positions=[0], n=n, timeout=600, cost=30))
+    big = dict(name="bf3-p257", framing="bf3", comps=[comp_(257, [])])
+    nb = file_len(big)
+    J.append(dict(name="bf3-p257:replace:last-payload-bytes", kind="replace", shape=big, positions=[nb - 1, nb - 2, nb - 258], n=nb, tier=tier, timeout=7000, cost=400))
+    J.append(dict(name="bf3-p257:cut:tail", kind="cut", shape=big, positions=[nb - 1, nb - 2], n=nb, tier=tier, timeout=7000, cost=200))
     J.append(dict(name="vacuity:accepting-path-reachable", kind="reach", shape=shapes(tier)[0], positions=[0], n=file_len(shapes(tier)[0]), expect="violated", timeout=300))
     return J
 
